@@ -9,10 +9,11 @@ WT=/tmp/wt/verify
 if [ ! -d $WT ]; then git -C /repo worktree add -q --detach $WT HEAD; fi
 cd $WT && git checkout -q --detach $(git -C /repo rev-parse HEAD) && git checkout -- . && git clean -fdq -e target
 NAME=seed_$(echo $SEED | tr 'A-Z-' 'a-z_')
+case "$CRATE" in */*) CARG="--manifest-path $CRATE";; *) CARG="-p $CRATE";; esac
 mkdir -p $CDIR/tests && cp $S/$DEMO $CDIR/tests/$NAME.rs
-cargo test -p $CRATE --test $NAME --offline > /tmp/vs_clean.log 2>&1; CLEAN=$?
+cargo test $CARG --test $NAME --offline > /tmp/vs_clean.log 2>&1; CLEAN=$?
 git apply $S/patch.diff; APPLY=$?
-cargo test -p $CRATE --test $NAME --offline > /tmp/vs_patched.log 2>&1; PATCHED=$?
+cargo test $CARG --test $NAME --offline > /tmp/vs_patched.log 2>&1; PATCHED=$?
 rm -f $CDIR/tests/$NAME.rs; rmdir $CDIR/tests 2>/dev/null
 cargo test --workspace --no-fail-fast --offline > /tmp/vs_suite.log 2>&1
 SUITE_P=$(grep -E "^test result" /tmp/vs_suite.log | awk '{p+=$4} END {print p+0}')
